@@ -263,6 +263,14 @@ class TSCachingChoiceLoader(CachingLoaderMixin, ChoiceLoader):
         ChoiceLoader.__init__(self, loaders)
 
 
+class _NoCache:
+    def items(self):
+        return []
+
+    def __len__(self):
+        return 0
+
+
 class _SeqShim:
     """What World needs of a loop when the clients are threads: a global event counter."""
 
@@ -349,7 +357,7 @@ class C23:
     REQUIRED_REACH = ["fault.uptodate_raised", "reach.hit", "reach.reload", "reach.evict", "reach.sync_during_async", "reach.ns_switch",
                       "reach.edit_in_flight", "reach.same_tick_edit", "reach.back_tick_edit", "reach.sub_millisecond_edit",
                       "fault.cancel_landed", "fault.store_notfound", "fault.store_oserror", "fault.fs_errno",
-                      "reach.thread_switch_inside_request", "reach.thread_lock_contended"]
+                      "reach.thread_switch_inside_request", "reach.thread_lock_contended", "reach.second_event_loop"]
 
     # -- generation ------------------------------------------------------------
     def gen(self, run_seed, tier):
@@ -357,7 +365,7 @@ class C23:
         config = rng.weighted([("fault", 35), ("nofault", 53), ("threads", 12)])
         kind = rng.weighted([("cdict", 2), ("cfs", 4), ("cchoice", 3), ("cmixin", 4)])
         ns_key = NS_KEY if rng.chance(0.6) else ""
-        names = ["a", "b", "d/p", "c.txt"][: rng.randint(1, 4)]
+        names = ["a", "b", "d/p", "c.txt", "c.txt.liquid"][: rng.randint(1, 5)]
         realms = {}
         for n in names:
             realms[n] = {"cdict": "dict", "cfs": "fs", "cmixin": "sim"}.get(kind) or rng.choice(["fs", "sim", "dict"])
@@ -434,6 +442,12 @@ class C23:
             "uptodate": rng.weighted([("fs-like", 5), ("sync", 3), ("none", 1)]),
             "switch_p": rng.choice([0.05, 0.3, 0.7]), "granularity": rng.choice(["line", "line", "opcode"]),
             "factory": rng.chance(0.3),
+            # delegates of the choice loader that are caching loaders themselves (only their
+            # get_source is used, so this must change nothing)
+            "caching_delegates": kind == "cchoice" and rng.chance(0.3),
+            # the application runs its requests in two successive event loops (asyncio.run twice)
+            # over the same environment and loader
+            "segments": 2 if config != "threads" and rng.chance(0.2) else 1,
             "ext": ".liquid" if rng.chance(0.3) else None,
             "env_globals": {"site": "S"} if rng.chance(0.5) else {},
             "names": names, "realms": realms, "initial": initial, "clients": clients,
@@ -478,6 +492,11 @@ class C23:
                 return CachingSimLoader(w, sc["uptodate"], thread_safe=sc["thread_safe"], **kw)
             return SimLoader(w, sc["uptodate"])
         subs = [FileSystemLoader(root, ext=sc["ext"]), SimLoader(w, sc["uptodate"]), DictLoader(w.dict_realm)]
+        if caching and sc.get("caching_delegates"):
+            ikw = dict(auto_reload=sc["auto_reload"], capacity=sc["capacity"])
+            subs = [CachingFileSystemLoader(root, ext=sc["ext"], **ikw),
+                    CachingSimLoader(w, sc["uptodate"], thread_safe=False, namespace_key="", **ikw),
+                    CachingDictLoader(w.dict_realm, **ikw)]
         if sc.get("factory"):
             return liquid.make_choice_loader(subs, auto_reload=sc["auto_reload"], namespace_key=sc["ns_key"],
                                              cache_size=sc["capacity"] if caching else 0)
@@ -576,7 +595,10 @@ class C23:
         w.loop = loop
         sut_env = Environment(extra=True, loader=self._build_loader(sc, w, True), globals=dict(sc["env_globals"]))
         mod_env = Environment(extra=True, loader=self._build_loader(sc, w, False), globals=dict(sc["env_globals"]))
-        cache = sut_env.loader.cache
+        cache = getattr(sut_env.loader, "cache", None)
+        if cache is None:       # whatever was built keeps no cache the checker can look into:
+            cache = _NoCache()  # the requests are judged all the same
+            bump(st, "sut.loader_without_cache_attribute")
         cap = sc["capacity"]
         first_req = {}          # cache key -> seq of the first request for it
         in_flight_async = [0]
@@ -893,13 +915,41 @@ class C23:
                 last_ns_for_name[op["name"]] = op["ns"]
             judge(op, inv, ret, tuple(got) if got[0] != "ok" else ("ok", got[1]), loads0, cancelled, missed)
 
-        async def root():
-            tasks = [loop.create_task(client(c), name="c%d" % c["id"]) for c in sc["clients"] if c["ops"]]
+        nseg = sc.get("segments", 1)
+
+        def part(c, si):
+            ops = c["ops"]
+            if nseg == 1:
+                return ops
+            h = (len(ops) + 1) // 2
+            return ops[:h] if si == 0 else ops[h:]
+
+        async def root(si):
+            tasks = [loop.create_task(client({**c, "ops": part(c, si)}), name="c%d" % c["id"])
+                     for c in sc["clients"] if part(c, si)]
             if tasks:
                 await asyncio.gather(*tasks)
 
+        totals = {"jobs": 0, "ooo": 0, "susp": 0, "time": 0.0, "steps": 0, "isig": []}
         try:
-            loop.run_sim(root())
+            for si in range(nseg):
+                if si > 0:
+                    # a second event loop over the same environment, loader, cache and store
+                    prev = loop
+                    loop = SimLoop(Rng(sc["sched_seed"], ("sched", si)), step_cap=60000, lat_profile=sc["lat"])
+                    loop.seq = prev.seq
+                    loop.log = prev.log
+                    w.loop = loop
+                    bump(st, "reach.second_event_loop")
+                loop.run_sim(root(si))
+                totals["jobs"] += loop.executor_jobs
+                totals["ooo"] += loop.executor_out_of_order
+                totals["susp"] += loop.suspensions
+                totals["time"] += loop.time()
+                totals["steps"] += loop.steps
+                totals["isig"].append(loop.interleaving_signature())
+                if viol:
+                    break
         except SimDeadlock:
             add("liveness", "liveness:deadlock", {"log_tail": loop.log[-12:]})
         except SimStepCap:
@@ -909,12 +959,12 @@ class C23:
                 bump(st, "reach." + k, v)
         bump(st, "runs." + sc["config"])
         bump(st, "runs.loader." + sc["loader"])
-        bump(st, "exec.jobs", loop.executor_jobs)
-        bump(st, "reach.exec_out_of_order", loop.executor_out_of_order)
-        bump(st, "suspensions", loop.suspensions)
-        res["sim_time"] = loop.time()
-        res["steps"] = loop.steps
-        res["isig"] = loop.interleaving_signature()
+        bump(st, "exec.jobs", totals["jobs"])
+        bump(st, "reach.exec_out_of_order", totals["ooo"])
+        bump(st, "suspensions", totals["susp"])
+        res["sim_time"] = totals["time"]
+        res["steps"] = totals["steps"]
+        res["isig"] = totals["isig"][0] if len(totals["isig"]) == 1 else digest(totals["isig"])
         res["digest"] = digest((loop.log, history))
         res["nontrivial"] = bool(flags["hit"] and (flags["reload"] or flags["evict"] or
                                                     flags["sync_during_async"] or flags["ns_switch"]))
@@ -1118,6 +1168,10 @@ class C23:
             yield {**sc, "thread_safe": False}
         if sc.get("factory"):
             yield {**sc, "factory": False}
+        if sc.get("caching_delegates"):
+            yield {**sc, "caching_delegates": False}
+        if sc.get("segments", 1) > 1:
+            yield {**sc, "segments": 1}
         if sc["env_globals"]:
             yield {**sc, "env_globals": {}}
         if sc["ext"]:
